@@ -199,6 +199,9 @@ func TestC38(t *testing.T) {
 		c38LengthSweep(rec, 300, []int{65537})
 	}
 
+	// ---- fixed key, thousands of honest proofs: non-canonical re-encodings of s (seed independent)
+	c38ScalarFamily(rec, rec.Pick(3000, 12000))
+
 	two256 := new(big.Int).Lsh(big1, 256)
 	msgFlipBudget := 64
 
